@@ -306,6 +306,36 @@ func oracleC07(x *Exec, r *StepRec) {
 		return
 	}
 	pre, post := r.Pre, r.Post
+	if r.Kind == "end" {
+		// what each consumer is charged at batch start is the sum of the fees of the requests issued for it
+		// (refunds of requests expiring in this block are added back)
+		exp := map[string]int64{}
+		h := post.Height
+		for _, rid := range sortedBoolKeys(pre.Active15) {
+			if q, ok := pre.Req[rid]; ok && q.ExpirationHeight == h {
+				if c, ok := pre.Ctx[hx(q.RequestContextId)]; ok {
+					exp[hx(c.Consumer)] += coinsStake(q.ServiceFee)
+				}
+			}
+		}
+		consumers := map[string]bool{}
+		for _, rid := range post.ReqIDs() {
+			if _, old := pre.Req[rid]; old {
+				continue
+			}
+			q := post.Req[rid]
+			if c, ok := post.Ctx[hx(q.RequestContextId)]; ok {
+				exp[hx(c.Consumer)] -= coinsStake(q.ServiceFee)
+				consumers[hx(c.Consumer)] = true
+			}
+		}
+		for _, a := range sortedKeys(consumers) {
+			if got := post.Bal[a] - pre.Bal[a]; got != exp[a] {
+				x.viol("C07", "charge_mismatch", fmt.Sprintf("height %d: consumer %s balance moved by %d, the fees of the requests issued for it (net of refunds due in this block) say %d", h, addrName(a), got, exp[a]), nil)
+				return
+			}
+		}
+	}
 	for _, rid := range post.ReqIDs() {
 		if _, old := pre.Req[rid]; old {
 			continue
